@@ -103,3 +103,23 @@ package shard
 //@   immutable Shard.cfg, Info.Mode
 //@   callee (*metabase.DB).PutCounted, (*metabase.DB).Put, (*metabase.DB).Delete, (*metabase.DB).DeleteContainer, (*metabase.DB).InhumeContainer, (*metabase.DB).MarkGarbage, (*metabase.DB).ReviveObject, (common.Storage).Put, (common.Storage).PutBatch, (common.Storage).Delete, (writecache.Cache).Put, (writecache.Cache).Delete, (writecache.Cache).Flush
 //@   requires [modifying_call_only_in_writable_mode] writableMode() || s.info.Mode == mode.ReadWrite
+
+// ---- C43: the reported mode changes only when every component switched.
+//@ ghost pred allComponentsSwitched() bool
+//@ callrule c43_shard_collaborators in (*Shard).setMode, (*Shard).setModeStorage
+//@   property C43
+//@   callee (common.Storage).*, (mode.Mode).*, (*shard.Shard).hasWriteCache, (shard.MetricsWriter).*
+//@   pureeffect
+// The component switches are called through a slice of method values: metabase and
+// write-cache are other objects, setModeStorage is proved below not to touch the reported mode.
+//@ callrule c43_component_switches_keep_reported_mode in (*Shard).setMode
+//@   property C43
+//@   callee dynamic:*
+//@   pureeffect
+//@ func (*Shard).setMode
+//@   property C43
+//@   ensures [reported_mode_is_the_new_one_on_success] err == nil ==> s.info.Mode == m
+//@   ensures [reported_mode_unchanged_on_failure] err != nil ==> s.info.Mode == old(s.info.Mode)
+//@ func (*Shard).setModeStorage
+//@   property C43
+//@   ensures [reported_mode_untouched] s.info.Mode == old(s.info.Mode)
